@@ -736,10 +736,10 @@ _log_filter_apply_to_cs(struct qb_log_callsite *cs,
 	}
 }
 
-int32_t
-qb_log_filter_ctl2(int32_t t, enum qb_log_filter_conf c,
-		   enum qb_log_filter_type type, const char * text,
-		   uint8_t high_priority, uint8_t low_priority)
+static int32_t
+_log_filter_ctl2(int32_t t, enum qb_log_filter_conf c,
+		 enum qb_log_filter_type type, const char * text,
+		 uint8_t high_priority, uint8_t low_priority)
 {
 	struct qb_log_filter *new_flt = NULL;
 	regex_t *regex = NULL;
@@ -815,6 +815,21 @@ qb_log_filter_ctl2(int32_t t, enum qb_log_filter_conf c,
 }
 
 int32_t
+qb_log_filter_ctl2(int32_t t, enum qb_log_filter_conf c,
+		   enum qb_log_filter_type type, const char * text,
+		   uint8_t high_priority, uint8_t low_priority)
+{
+	int32_t rc;
+
+	/* what is queued for the logging thread was logged under the
+	 * filters as they are */
+	qb_log_thread_quiesce();
+	rc = _log_filter_ctl2(t, c, type, text, high_priority, low_priority);
+	qb_log_thread_quiesce_end();
+	return rc;
+}
+
+int32_t
 qb_log_filter_fn_set(qb_log_filter_fn fn)
 {
 	struct callsite_section *sect;
@@ -828,6 +843,7 @@ qb_log_filter_fn_set(qb_log_filter_fn fn)
 		return 0;
 	}
 
+	qb_log_thread_quiesce();
 	qb_list_for_each_entry(sect, &callsite_sections, list) {
 		for (cs = sect->start; cs < sect->stop; cs++) {
 			if (cs->lineno > 0) {
@@ -835,6 +851,7 @@ qb_log_filter_fn_set(qb_log_filter_fn fn)
 			}
 		}
 	}
+	qb_log_thread_quiesce_end();
 	return 0;
 }
 
@@ -962,8 +979,8 @@ qb_log_target_free(struct qb_log_target *t)
 {
 	/* qb_log_filter_ctl() refuses a NULL text; "*" is what every
 	 * other CLEAR_ALL passes */
-	(void)qb_log_filter_ctl(t->pos, QB_LOG_FILTER_CLEAR_ALL,
-				QB_LOG_FILTER_FILE, "*", LOG_TRACE);
+	(void)_log_filter_ctl2(t->pos, QB_LOG_FILTER_CLEAR_ALL,
+			       QB_LOG_FILTER_FILE, "*", LOG_EMERG, LOG_TRACE);
 	t->debug = QB_FALSE;
 	t->filename[0] = '\0';
 	qb_log_format_set(t->pos, NULL);
@@ -1052,6 +1069,8 @@ qb_log_custom_close(int32_t t)
 	}
 	qb_log_target_free(target);
 	qb_log_thread_resume(target);
+	/* the next user of the slot starts like any new target */
+	target->threaded = QB_FALSE;
 }
 
 static int32_t
@@ -1155,7 +1174,10 @@ qb_log_ctl2(int32_t t, enum qb_log_conf c, qb_log_ctl2_arg_t arg_not4directuse)
 		}
 		break;
 	case QB_LOG_CONF_THREADED:
+		/* what is queued was logged with the old setting */
+		qb_log_thread_quiesce();
 		conf[t].threaded = arg_i32;
+		qb_log_thread_quiesce_end();
 		break;
 	case QB_LOG_CONF_EXTENDED:
 		conf[t].extended = arg_i32;
